@@ -16,10 +16,17 @@ for it is what the next `Load` in the same process starts from.  Which fields ar
 is a generated fact (`via`, asked of the compiled `Load`): none since /repo 76d1c39 copies
 `Instrumentation`; the mechanism stays in the model so that a new shared pointer is noticed.
 
-`SaveAsYaml` writes every field under its `yaml` tag path (goccy/go-yaml).
+`SaveAsYaml` writes every field under its `yaml` tag path (goccy/go-yaml); what the reader makes of
+the VALUES is `saveYaml` below (`Model/ConfigYaml.lean`).
 
-Values are opaque canonical renderings (strings); how viper/mapstructure/yaml convert values of
-each kind is the business of the correspondence stream, not of this model.  Core Lean only.
+`LoadFromViper` (second entry point: the application owns the viper its flags are bound to) copies
+the keys that are SET in that viper (since /repo 0a9b622: not the defaults of flags that were not
+given) over the file's keys and decodes the same way: the same function of (command line, file,
+defaults); the stream runs it through the same model (`loadfromviper`).
+
+Values are canonical renderings (strings): how viper/mapstructure convert values of each kind on the
+way IN (flag syntax, YAML numbers) is the business of the correspondence stream; what the YAML
+writer/reader pair does to a string on its way through a SAVED file is modelled (`saveYaml`).  Core Lean only.
 -/
 namespace Config
 
@@ -36,7 +43,7 @@ structure Field where
 /-- one registered command-line flag -/
 structure Flag where
   name : String         -- as registered with pflag
-  key : String          -- viper key bound by `bindFlags` = path of the option the flag names
+  key : String          -- viper key the real `bindFlags` binds the flag to (behavioural fact: asked of viper)
   kind : String
   dflt : String         -- registered default
   reaches : List String -- Go paths of the fields the real `Load` changed when only this flag was given
